@@ -6,6 +6,7 @@
 #include <cstdarg>
 #include <cstdint>
 #include <cstdio>
+#include <cstdlib>
 #include <cstring>
 #include <limits>
 #include <map>
@@ -141,6 +142,19 @@ namespace vf
         bool render = false;
         std::string text;  // human-readable rendering of the case (only filled when render)
         std::string tier = "quick";
+        // Liveness channel to the supervising parent (fork-per-case harnesses): number of termination-condition evaluations so
+        // far and whether the condition has fired. A child that keeps evaluating is slow, not hung.
+        volatile long *progress = nullptr;
+        volatile long *fired = nullptr;
+        char *ctxBuf = nullptr;  // shared with the supervising parent: names the case (e.g. the planner) if the child hangs or is killed
+        void context(const std::string &what)
+        {
+            if (ctxBuf)
+            {
+                strncpy(ctxBuf, what.c_str(), 200);
+                ctxBuf[200] = 0;
+            }
+        }
 
         bool isKnown(const std::string &key) const
         {
@@ -187,6 +201,12 @@ namespace vf
             vsnprintf(buf, sizeof buf, fmt, ap);
             va_end(ap);
             text += buf;
+            static const bool trace = getenv("VF_TRACE") != nullptr;  // replay of a hanging case: show the decoded case as it goes
+            if (trace)
+            {
+                fputs(buf, stderr);
+                fflush(stderr);
+            }
         }
     };
 
@@ -213,7 +233,8 @@ namespace vf
         const char *property;   // "C11"
         size_t maxLen = 512;    // maximum generated case length in bytes
         size_t batch = 2000;    // cases per forked child (1 = fork per case)
-        double caseTimeout = 20;  // seconds per case before the watchdog calls it a hang (inconclusive unless 3x)
+        double caseTimeout = 20;  // seconds without progress (no termination-condition evaluation, or no return after it fired) = hang
+        double hardTimeout = 0;   // overall seconds per case (0 = 6 x caseTimeout); reaching it while still progressing = slow, inconclusive
         bool leaks = false;     // let LeakSanitizer run at child exit (only meaningful with batch==1)
     };
 
